@@ -4,6 +4,8 @@ mod c04;
 mod c05;
 mod c06;
 mod c10;
+mod c11;
+mod c14;
 mod c19;
 
 fn main() {
@@ -18,6 +20,8 @@ fn main() {
         "c05" => c05::run(&args),
         "c06" => c06::run(&args),
         "c10" => c10::run(&args),
+        "c11" => c11::run(&args),
+        "c14" | "c03-maps" => c14::run(&args.sub, &args),
         "c19" => c19::run(&args),
         other => {
             eprintln!("unknown subcommand {}", other);
